@@ -21,7 +21,7 @@ REQUIRED = {"C15": {"expiry-hop": 500, "expiry-finish": 100, "re-entry-by-next_s
                     "in-state-done": 100, "post-end-iteration": 300, "exact-landing-strict": 100, "tie-accepted": 20,
                     "re-entered-timed-state-ran": 50, "states-inherited-through-two-or-more-levels": 100,
                     "second-mode-with-same-state-names-in-process": 200, "other-mode-ran-between-periods": 50,
-                    "underscore-named-timed-state": 100, "dashboard-edited-while-the-period-runs": 300, "negative-duration-typed-on-the-dashboard": 50}}
+                    "underscore-named-timed-state": 100, "dashboard-edited-while-the-period-runs": 300, "negative-duration-typed-on-the-dashboard": 50, "mode-of-1100-chained-states": 1}}
 ASSUMPTIONS = {"C15": ["an expiry comparison landing exactly on start+duration is a tie unless every operand lies on the 1/64 s grid"]}
 
 NAMES = ["sa", "sb", "sc", "sd", "se", "sf"]
@@ -38,6 +38,11 @@ def shards(pid, tier, seed):
 def gen_case(rng, uid):
     n = rng.choice([1, 2, 3, 3, 4, 5, 6])
     names = [("_" + x if rng.random() < 0.15 else x) for x in NAMES[:n]]      # '_settle' is a legal state name
+    long_chain = rng.random() < 0.004
+    if long_chain:
+        # a scripted routine: 1100 short timed steps, each linked to the next one
+        n = 1100
+        names = [f"q{i:04d}" for i in range(n)]
     grid = rng.random() < 0.4
     period = GRID * rng.choice([1, 2, 4]) if grid else rng.choice([20000, 5000, 50000, 10000])
 
@@ -45,10 +50,10 @@ def gen_case(rng, uid):
         if grid:
             return GRID * rng.choice([0, 1, 2, 3, 5, 8, 16, 64])
         return rng.choice([0, rng.randrange(1, period), period * rng.randrange(1, 8), rng.randrange(period, 10 * period), 1000000])
-    first = rng.randrange(n)
+    first = 0 if long_chain else rng.randrange(n)
     states = []
     for i, nm in enumerate(names):
-        timed = rng.random() < 0.65
+        timed = long_chain or rng.random() < 0.65
         st = {"name": nm, "timed": timed, "first": i == first, "sig": rng.choice(SUBSETS) if rng.random() < 0.6 else list(PARAMS),
               "doc": rng.choice([None, f"about {nm}"])}
         if timed:
@@ -56,6 +61,8 @@ def gen_case(rng, uid):
             st["dur_int"] = st["dur_us"] % 1000000 == 0 and rng.random() < 0.4
             r = rng.random()
             st["next"] = None if r < 0.25 else names[(i + 1) % n] if r < 0.6 else rng.choice(names)
+            if long_chain:
+                st["next"] = names[i + 1] if i + 1 < n else None
         states.append(st)
     script = {}
     for nm in names:
@@ -69,6 +76,8 @@ def gen_case(rng, uid):
             else:
                 acts.append(None)
         script[nm] = acts
+    if long_chain:
+        script = {nm: (acts[:3] if i_ % 50 == 0 else []) for i_, (nm, acts) in enumerate(script.items())}
     sdvars = []
     for i in range(rng.randrange(0, 3)):
         sdvars.append({"name": f"v{i}_{uid}", "default": rng.choice([True, False, 1, 0.5, -2.25, "txt", ""]), "prefix": rng.random() < 0.7})
@@ -82,7 +91,7 @@ def gen_case(rng, uid):
         companion = {"durs": {st["name"]: dur() for st in states}, "when": rng.choice(["before", "after", "after"]),
                      "runs": rng.random() < 0.5,
                      "vars": [rng.choice([True, 7, 0.125, "other"]) for _ in sdvars]}
-    return {"uid": uid, "grid": grid, "period": period, "states": states, "script": script, "sdvars": sdvars,
+    return {"uid": uid, "long_chain": long_chain, "grid": grid, "period": period, "states": states, "script": script, "sdvars": sdvars,
             "levels": nlev, "companion": companion, "hseed": rng.randrange(1 << 30), "ops": None}
 
 
@@ -417,6 +426,8 @@ class Driver:
         def do(op):
             ops.append(op)
             return self.apply(op)
+        if case.get("long_chain"):
+            self.events["mode-of-1100-chained-states"] = 1
         for per in range(rng.choice([1, 2, 2, 3, 4]) if rng.random() > 0.03 else rng.choice([9, 14])):
             if per and timed and rng.random() < 0.5:
                 st = rng.choice(timed)
